@@ -15,7 +15,7 @@ BOUNDS = {
     "quick": "receivers: Images, DiffractionPatterns, RealSpaceLineProfiles, PolarMeasurements with a 2x2 (1x2x2 with one ensemble axis) array of symbolic complex or real entries, "
              "metadata {'label': symbolic string, 'units': symbolic string, 'energy': symbolic real}, symbolic samplings; methods: real, imag, phase, abs, intensity, "
              "Images.interpolate(fft)/crop/tile/diffractograms/integrate_gradient, DiffractionPatterns.crop/block_direct/center_of_mass/integrate_radial/interpolate, "
-             "PolarMeasurements.integrate, sum/mean/std/min/max over the ensemble axis, squeeze/expand_dims/__getitem__, relative_difference, normalize_ensemble, arithmetic (+ - * /)",
+             "PolarMeasurements.integrate, sum/mean/std/min/max over the ensemble axis, squeeze/expand_dims/__getitem__, relative_difference, normalize_ensemble (every shift x scale option), identity-like calls (same-grid interpolate, tile((1,1)), m[:], squeeze of nothing), arithmetic (+ - * /)",
     "thorough": "same methods, additionally on 2x4 arrays with an ensemble axis of two members",
 }
 OUTSIDE = ["the ASE half of the property (orthogonalize_cell, standardize_cell, Potential, FrozenPhonons, StructureFactor, BlochWaves leave the caller's Atoms unchanged): ASE coerces "
@@ -235,6 +235,19 @@ METHODS = {
     "std_axis": (("images",), False, True, lambda m, c: m.std(0), "m.std(0)"),
     "copy": (("images", "patterns", "lines", "polar"), True, True, lambda m, c: m.copy(), "m.copy()"),
 }
+
+
+for _shift in ("none", "mean", "min", "max"):
+    for _scale in ("max", "sum", "ptp", "mean"):
+        if (_shift, _scale) == ("mean", "max"):
+            continue  # the default call above
+        METHODS[f"normalize_ensemble_{_shift}_{_scale}"] = (("images", "lines"), False, True, (lambda sh, sc: lambda m, c: m.normalize_ensemble(scale=sc, shift=sh))(_shift, _scale),
+                                                              f"m.normalize_ensemble(scale={_scale!r}, shift={_shift!r})")
+METHODS["interpolate_fft_same_grid"] = (("images",), False, False, lambda m, c: m.interpolate(gpts=(2, 2), method="fft"), "m.interpolate(gpts=m.base_shape, method='fft')")
+METHODS["tile_identity"] = (("images",), False, False, lambda m, c: m.tile((1, 1)), "m.tile((1, 1))")
+METHODS["getitem_slice"] = (("images", "polar"), False, True, lambda m, c: m[:], "m[:]")
+METHODS["squeeze_nothing"] = (("images",), False, False, lambda m, c: m.squeeze(), "m.squeeze()")
+METHODS["sum_keepdims_like"] = (("images",), False, True, lambda m, c: m.sum((0,)), "m.sum((0,))")
 
 
 def _method(kind, name, shape=(2, 2), nens=1):
